@@ -275,28 +275,34 @@ Definition s_send_pdu (now : N) (s : sstate) : sstate * result :=
     | SFinished => (send_ack now s, ROk)
     end.
 
+(* handle_timeout, SendEof state, ACK timer part *)
+Definition ht_ack_eof (now : N) (s : sstate) : sstate :=
+  let '(ca, occ) := c_timeout_occurred now (t_ack (s_timer s)) in
+  let s := supd_ack (fun _ => ca) s in
+  if occ then
+    if c_count ca =? c_max ca then s_handle_fault now PositiveLimitReached s
+    else set_eof_flag true s
+  else s.
+
 Definition s_handle_timeout (now : N) (s : sstate) : sstate :=
   match s_phase s with
   | SendEof =>
       let '(ci, lim) := c_limit_reached now (t_inact (s_timer s)) in
       let s := supd_inact (fun _ => ci) s in
       let s := if lim then s_handle_fault now InactivityDetected s else s in
-      let '(ca, occ) := c_timeout_occurred now (t_ack (s_timer s)) in
-      let s := supd_ack (fun _ => ca) s in
-      if occ then
-        if c_count ca =? c_max ca then s_handle_fault now PositiveLimitReached s
-        else set_eof_flag true s
-      else s
+      if lim && (negb (sphase_eqb (s_phase s) SendEof) || negb (tstate_eqb (s_state s) TActive)) then s
+      else ht_ack_eof now s
   | SCancelled =>
       let '(ci, lim) := c_limit_reached now (t_inact (s_timer s)) in
       let s := supd_inact (fun _ => ci) s in
-      let s := if lim then s_abandon now s else s in
-      let '(ca, occ) := c_timeout_occurred now (t_ack (s_timer s)) in
-      let s := supd_ack (fun _ => ca) s in
-      if occ then
-        if c_count ca =? c_max ca then s_abandon now s
-        else set_eof_flag true s
-      else s
+      if lim then s_abandon now s
+      else
+        let '(ca, occ) := c_timeout_occurred now (t_ack (s_timer s)) in
+        let s := supd_ack (fun _ => ca) s in
+        if occ then
+          if c_count ca =? c_max ca then s_abandon now s
+          else set_eof_flag true s
+        else s
   | _ => s
   end.
 
